@@ -377,3 +377,33 @@ pub fn check_c03(n: u8, nstreams: u8, full: u8) {
         i += 1;
     }
 }
+
+/// Native replay only: print the ledger (part of the replay report).
+#[cfg(not(kani))]
+pub fn dump() {
+    let l = lg();
+    println!("ledger (clock {}):", l.clock);
+    for i in 0..MAXREC {
+        let r = l.recs[i];
+        if r.kind != OP_NONE && r.res != R_NONE {
+            let kind = match r.kind {
+                OP_SEND => "send",
+                OP_RECV => "recv",
+                _ => "other",
+            };
+            let res = match r.res {
+                R_OK => "Ok",
+                R_FULL => "Full",
+                R_EMPTY => "Empty",
+                R_DISC => "Disconnected",
+                R_NOTREADY => "NotReady",
+                R_DONE => "done",
+                _ => "?",
+            };
+            println!(
+                "  slot {:2} actor {} {:5} stream {} id {:2} -> {:12} t=[{},{}]{}",
+                i, r.actor, kind, r.stream, r.id, res, r.tb, r.te, if r.quiescent { " (quiescent phase)" } else { "" }
+            );
+        }
+    }
+}
